@@ -464,10 +464,12 @@ class CoordinateLocation(IndexLocation):
         return 0, 0, 0
 
     def getGlobalCellBase(self):
-        return self.indices
+        """A point has no extent: its base is the point itself, in the global coordinate system."""
+        return self.getGlobalCoordinates()
 
     def getGlobalCellTop(self):
-        return self.indices
+        """A point has no extent: its top is the point itself, in the global coordinate system."""
+        return self.getGlobalCoordinates()
 
 
 def addingIsValid(myGrid: "Grid", parentGrid: "Grid"):
